@@ -675,7 +675,8 @@ def check(rep, args):
     for cfg in configs:
         check_config(rep, facts.program(cfg))
     cov = {
-        "explanation": "control-dependence and reachability rules over both Target::rasterize impls and render(); "
+        "explanation": "both Target::rasterize impls interpreted over (flags x shader result x depth outcome) scenarios and render() interpreted on a reference "
+                       "scene under every face_cull setting (sa/target_sem.py, sa/render_sem.py); path-sensitive must-pass rule for tri_fill with culling off; "
                        "abstract interpretation of Stats::add_assign with symbolic counters",
         "evaluations": len(rep.instances),
         "distinct_nontrivial": len({i["what"] for i in rep.instances}),
@@ -683,5 +684,5 @@ def check(rep, args):
     }
     return "other", cov, [
         "MIR at -Zmir-opt-level=0 faithfully represents the source",
-        "the sign convention inside is_backface (which winding is 'back') is not decided",
+        "which on-screen winding counts as 'back' (positive (p1-p0) x (p2-p0) with y pointing down) is the pinned tree's convention, taken as the reference",
         "RefCell::borrow_mut on ctx.stats does not fail (no outstanding borrow)"]
